@@ -255,6 +255,77 @@ def h_sequence(eng, ops, quiet=False):
             _same(eng, a, b, f"{tag}:{la}")
 
 
+def h_programmatic_context_history(eng, first, endpoints):
+    """a Context object built in code (endpoints written as derived dimension names): what a plain
+    activation answers does not depend on how the context was activated the first time"""
+    from pint import Context
+
+    k, n0, nv, x = eng.real("k"), eng.real("n0"), eng.real("nv"), eng.real("x")
+    for v in (k, n0, nv):
+        eng.assume(v > 0)
+    eng.assume(Not(Eq(n0, nv)))
+    lines = ["m = [length]", "s = [time]", "g = [mass]", "[frequency] = 1 / [time]", "[speed] = [length] / [time]", "hz = 1 / s", "kn = m / s",
+             "@context(q=2) outer", "    [mass] -> [time]: value * q * s / g", "@end", "@context vac", "    [length] -> [frequency]: value * 5 * hz / m", "    [speed] -> [frequency]: value * 5 * hz / kn", "@end"]  # fmt: skip
+    src_spec, src_unit = {"derived": ("[length]", "m"), "derived-both": ("[speed]", "kn")}[endpoints]
+
+    def build():
+        reg = regs.build(eng, lines)
+        c = Context("p", defaults={"n": n0})
+
+        def fwd(ureg_, value, n=None, **kw):
+            return value * k * n * ureg_.Quantity(1, "hz") / ureg_.Quantity(1, src_unit)
+
+        c.add_transformation(src_spec, "[frequency]", fwd)
+        reg.add_context(c)
+        return reg
+
+    def battery(reg):
+        out = []
+        q = reg.Quantity(x, src_unit)
+
+        def ask(label, fn):
+            try:
+                out.append((label, fn()))
+            except DimensionalityError:
+                out.append((label, "DimensionalityError"))
+            except KeyError:
+                out.append((label, "KeyError"))
+
+        ask("to(hz,'p')", lambda: q.to("hz", "p").magnitude)
+        ask("with p", lambda: _with(reg, ("p",), lambda: q.to("hz").magnitude))
+        ask("with vac,p (p overrides)", lambda: _with(reg, ("vac", "p"), lambda: q.to("hz").magnitude))
+        ask("with p: compatible", lambda: _with(reg, ("p",), lambda: q.is_compatible_with("hz")))
+        ask("with p: compatible units", lambda: _with(reg, ("p",), lambda: sorted(str(u_) for u_ in reg.get_compatible_units(src_unit))))
+        ask("to(hz,'p',n=nv)", lambda: q.to("hz", "p", n=nv).magnitude)
+        return out
+
+    def _with(reg, names, fn):
+        with reg.context(*names):
+            return fn()
+
+    used = build()
+    uq = used.Quantity(x, src_unit)
+    if first == "per-call-kw":
+        uq.to("hz", "p", n=nv)
+    elif first == "with-kw":
+        with used.context("p", n=nv):
+            uq.to("hz")
+    elif first == "enable-kw":
+        used.enable_contexts("p", n=nv)
+        used.disable_contexts()
+    elif first == "nested-inherits":
+        with used.context("outer"):
+            with used.context("p"):
+                uq.to("hz")
+    elif first == "plain":
+        with used.context("p"):
+            uq.to("hz")
+    got, want = battery(used), battery(build())
+    for (la, a), (_lb, b) in zip(got, want):
+        _same(eng, a, b, f"programmatic-context:{first}:{la}")
+    eng.prove(Eq(got[0][1], x * k * n0) if not isinstance(got[0][1], str) else False, f"programmatic-context:{first}:value")
+
+
 def h_float_history(eng, pairs):
     """float registry: what a conversion answers is bit-for-bit (and type-for-type) what a fresh
     registry answers, whatever was converted before -- the opposite direction of the same pair,
@@ -262,18 +333,29 @@ def h_float_history(eng, pairs):
 
     def answers(reg, u, v):
         out = []
+
+        def one(fn):
+            try:
+                r = fn()
+            except Exception as ex:  # noqa: BLE001 - the kind of failure is part of the answer
+                return ("raised", type(ex).__name__)
+            return (type(r).__name__, repr(r))
+
         for val in (2, 2.0, 3.7):
-            r = reg.Quantity(val, u).to(v)
-            out.append((type(r.magnitude).__name__, repr(r.magnitude)))
-        out.append(repr(reg.convert(1.5, u, v)))
-        f = reg.Quantity(5, u)
-        f.ito(v)
-        out.append(repr(f.magnitude))
+            out.append(one(lambda: reg.Quantity(val, u).to(v).magnitude))
+        out.append(one(lambda: reg.convert(1.5, u, v)))
+
+        def inplace():
+            f = reg.Quantity(5, u)
+            f.ito(v)
+            return f.magnitude
+
+        out.append(one(inplace))
         return out
 
     for u, v in pairs:
         fresh = answers(regs.float_default(), u, v)
-        for hist in ("opposite-first", "opposite-in-context", "via-root", "opposite-registry-level"):
+        for hist in ("opposite-first", "opposite-in-context", "via-root", "opposite-registry-level", "decimal-magnitudes-first", "fraction-magnitudes-first"):
             reg = regs.float_default()
             if hist == "opposite-first":
                 reg.Quantity(1.0, v).to(u)
@@ -281,6 +363,17 @@ def h_float_history(eng, pairs):
                 with reg.context("sp"):
                     reg.Quantity(1.0, v).to(u)
                 reg.Quantity(1.0, v).to(u)
+            elif hist in ("decimal-magnitudes-first", "fraction-magnitudes-first"):
+                # magnitudes of another numeric type went through the same pair before
+                import decimal
+
+                mk = decimal.Decimal if hist.startswith("decimal") else Fraction
+                for val in ("1.5", "0.25"):
+                    try:
+                        reg.Quantity(mk(val), u).to(v)
+                        reg.Quantity(mk(val), v).to(u)
+                    except Exception:  # noqa: BLE001
+                        pass
             elif hist == "via-root":
                 reg.Quantity(1.0, v).to_root_units()
                 reg.Quantity(1.0, u).to_base_units()
@@ -309,6 +402,9 @@ def cases(tier, seed):
     from .. import covers
 
     fp = covers.same_dim_pairs(seed, 400 if big else 60) + [("minute", "second"), ("week", "day"), ("pound", "kilogram"), ("second", "minute"), ("inch", "yard"), ("hour", "millisecond")]
+    for first in ("per-call-kw", "with-kw", "enable-kw", "nested-inherits", "plain"):
+        for ep in ("derived", "derived-both"):
+            out.append(Case("H13", f"programmatic-context:{first}:{ep}", M, "h_programmatic_context_history", {"first": first, "endpoints": ep}, opts={"hash_mode": "mixed", "max_paths": 300}, validate=1))
     for i in range(0, len(fp), 12):
         out.append(Case("H13.float", f"history:{i:04d}", M, "h_float_history", {"pairs": fp[i : i + 12]}, kind="conc"))
     for i, s in enumerate(seqs):
